@@ -11,7 +11,20 @@ pub struct Srv { pub child: Child, pub port: u16, pub dir: std::path::PathBuf }
 pub struct SrvOpts { pub password: Option<String>, pub aof: bool, pub dir: Option<std::path::PathBuf>, pub keep_dir: bool }
 impl Default for SrvOpts { fn default() -> Self { SrvOpts { password: None, aof: false, dir: None, keep_dir: false } } }
 
+/// A port that is free right now, taken from BELOW the kernel's ephemeral range (32768..): a port
+/// released here is then never handed to another process's bind(0) or outgoing connection, so servers
+/// of concurrently running checks cannot end up sharing a port (a lost race among this harness's own
+/// shards is caught by the child's failing bind, see the ready file in Srv::start).
 fn free_port() -> u16 {
+    static N: std::sync::atomic::AtomicU64 = std::sync::atomic::AtomicU64::new(0);
+    let t = std::time::SystemTime::now().duration_since(std::time::UNIX_EPOCH).map(|d| d.as_nanos() as u64).unwrap_or(0);
+    let mut x = t ^ ((std::process::id() as u64) << 32) ^ N.fetch_add(1, std::sync::atomic::Ordering::SeqCst).wrapping_mul(0x9E3779B97F4A7C15);
+    for _ in 0..10000 {
+        x = x.wrapping_add(0x9E3779B97F4A7C15);
+        let mut z = x; z = (z ^ (z >> 30)).wrapping_mul(0xBF58476D1CE4E5B9); z = (z ^ (z >> 27)).wrapping_mul(0x94D049BB133111EB); z ^= z >> 31;
+        let port = 10000 + (z % 22000) as u16;
+        if std::net::TcpListener::bind(("127.0.0.1", port)).is_ok() { return port; }
+    }
     let l = std::net::TcpListener::bind("127.0.0.1:0").unwrap();
     l.local_addr().unwrap().port()
 }
@@ -34,16 +47,27 @@ impl Srv {
             if let Some(p) = &o.password { c.arg("--pass").arg(p); }
             if o.aof { c.arg("--aof"); }
             c.current_dir(&dir).stdin(Stdio::null()).stdout(Stdio::null()).stderr(Stdio::null());
+            // the child creates <dir>/.ready once ITS listener is bound: a successful connect alone could
+            // reach the server of a parallel harness process that was handed the same "free" port
+            let ready = dir.join(".ready");
+            let _ = std::fs::remove_file(&ready);
             let mut child = c.spawn().expect("spawn server");
             let t0 = Instant::now();
             loop {
                 if let Ok(Some(_)) = child.try_wait() { break; }
-                if std::net::TcpStream::connect(("127.0.0.1", port)).is_ok() {
-                    // the port may have been taken by a server of a concurrently running harness
-                    // (ours then fails to bind and exits): make sure the one that answers is our child
-                    std::thread::sleep(Duration::from_millis(25));
-                    if let Ok(Some(_)) = child.try_wait() { break; }
-                    return Srv { child, port, dir };
+                if ready.exists() && std::net::TcpStream::connect(("127.0.0.1", port)).is_ok() {
+                    // port race between harness processes: make sure it is OUR child that listens
+                    // (the VERIF PID hook answers the server's process id)
+                    let mut mine = false;
+                    if let Some(mut cl) = Client::connect(port) {
+                        let mut w = vec![];
+                        if let Some(p) = &o.password { V::cmd(&[b"AUTH", p.as_bytes()]).wire(&mut w); cl.send(&w); let _ = cl.read(3000); w.clear(); }
+                        V::cmd(&[b"VERIF", b"PID"]).wire(&mut w); cl.send(&w);
+                        if let Rd::Val(V::Int(pid)) = cl.read(3000) { mine = pid as u32 == child.id(); }
+                    }
+                    if mine { return Srv { child, port, dir }; }
+                    let _ = child.kill(); let _ = child.wait(); let _ = std::fs::remove_dir_all(&dir);
+                    break;
                 }
                 if t0.elapsed() > Duration::from_secs(8) { let _ = child.kill(); let _ = child.wait(); break; }
                 std::thread::sleep(Duration::from_millis(5));
@@ -70,7 +94,10 @@ pub fn serve(args: &[String]) {
     if args.iter().any(|a| a == "--aof") { cfg.aof.enabled = true; cfg.aof.dir = dir.clone(); }
     let _ = std::panic::take_hook();
     match ferrous::Server::from_config(cfg) {
-        Ok(mut s) => { let r = s.run(); eprintln!("server ended: {:?}", r.is_ok()); }
+        Ok(mut s) => {
+            let _ = std::fs::write(std::path::Path::new(&dir).join(".ready"), b"1");
+            let r = s.run(); eprintln!("server ended: {:?}", r.is_ok());
+        }
         Err(e) => { eprintln!("server failed to start: {}", e); std::process::exit(3); }
     }
 }
@@ -93,6 +120,12 @@ pub fn canon_reply(name: &[u8], v: V) -> V {
     let v = canon(v);
     match name {
         b"TTL" | b"PTTL" => match v { V::Int(n) if n > 0 => V::Int(1), x => x },
+        b"VERIF" => match v {
+            // INDEX rows: remaining times by sign only
+            V::Array(rows) => V::Array(rows.into_iter().map(|r| match r {
+                V::Array(mut f) if f.len() == 4 => { for k in 1..3 { if let V::Int(n) = f[k] { if n > 0 { f[k] = V::Int(1); } } } V::Array(f) }
+                x => x }).collect()),
+            x => x },
         b"SMEMBERS" | b"SUNION" | b"SINTER" | b"SDIFF" | b"KEYS" | b"HKEYS" | b"HVALS" | b"SPOP" | b"SRANDMEMBER" =>
             match v { V::Array(mut l) => { if l.iter().all(|x| matches!(x, V::Bulk(_))) { sort_bulks(&mut l); } V::Array(l) } x => x },
         b"HGETALL" => match v {
@@ -102,18 +135,22 @@ pub fn canon_reply(name: &[u8], v: V) -> V {
                 V::Array(pairs.into_iter().flat_map(|(k, v)| vec![k, v]).collect())
             }
             x => x },
-        _ => v,
+        // SSCAN fast path iterates the HashSet: sort the members (the slow path is sorted already)
+        b"SSCAN" => match v {
+            V::Array(mut l) if l.len() == 2 => { if let V::Array(m) = &mut l[1] { if m.iter().all(|x| matches!(x, V::Bulk(_))) { sort_bulks(m); } } V::Array(l) }
+            x => x },
+        _ => crate::c15::canon_streams(name, v),
     }
 }
 pub fn req_name(req: &V) -> Vec<u8> {
     match req { V::Array(l) => match l.first() { Some(V::Bulk(b)) => b.to_ascii_uppercase(), _ => vec![] }, _ => vec![] }
 }
-const RANDOM_CMDS: &[&[u8]] = &[b"RANDOMKEY", b"SPOP", b"SRANDMEMBER"];
+const RANDOM_CMDS: &[&[u8]] = &[b"RANDOMKEY", b"SPOP", b"SRANDMEMBER", b"XADD"];
 
-pub struct Runner { pub srv: Srv, pub conns: HashMap<i128, Client>, pub t0: Instant, pub logical: i128, pub drift_bad: bool }
+pub struct Runner { pub srv: Srv, pub conns: HashMap<i128, Client>, pub t0: Instant, pub logical: i128, pub drift_bad: bool, pub queues: HashMap<i128, Vec<Vec<u8>>>, pub password: Option<String>, pub ctl_authed: bool }
 
 impl Runner {
-    pub fn new(o: &SrvOpts) -> Runner { Runner { srv: Srv::start(o), conns: HashMap::new(), t0: Instant::now(), logical: 0, drift_bad: false } }
+    pub fn new(o: &SrvOpts) -> Runner { Runner { srv: Srv::start(o), conns: HashMap::new(), t0: Instant::now(), logical: 0, drift_bad: false, queues: HashMap::new(), password: o.password.clone(), ctl_authed: false } }
     /// one op; returns (possibly augmented op, output)
     pub fn op(&mut self, op: &[Tok]) -> (Vec<Tok>, Vec<Tok>) {
         let name = tok_bytes(&op[0]).to_vec();
@@ -136,19 +173,94 @@ impl Runner {
                 if el - self.logical > 80 { self.drift_bad = true; }
                 let mut wire = vec![]; req.wire(&mut wire);
                 let nm = req_name(&req);
-                let cl = match self.conns.get_mut(&c) { Some(x) => x, None => return (op.to_vec(), vec![b("NOCONN")]) };
+                let cl = match self.conns.get_mut(&c) { Some(x) => x, None => return (op.to_vec(), vec![b("CLOSED")]) };
                 if !cl.send(&wire) { return (op[..pos].to_vec(), vec![b("CLOSED")]); }
                 let mut newop = op[..pos].to_vec();
                 newop[2] = Tok::I(self.logical);
                 match cl.read(3000) {
                     Rd::Val(v) => {
-                        if RANDOM_CMDS.contains(&&nm[..]) { v.enc(&mut newop); }
+                        if RANDOM_CMDS.contains(&&nm[..]) || nm == b"ZSCAN" { v.enc(&mut newop); }
+                        // replies inside an EXEC array are canonicalised by the queued command's name
+                        let v = if nm == b"EXEC" {
+                            let q = self.queues.remove(&c).unwrap_or_default();
+                            match v { V::Array(l) if l.len() == q.len() => V::Array(l.into_iter().zip(q.iter()).map(|(x, n)| canon_reply(n, x)).collect()), x => x }
+                        } else {
+                            if matches!(&v, V::Simple(s) if s == b"QUEUED") { self.queues.entry(c).or_default().push(nm.clone()); }
+                            if nm == b"MULTI" || nm == b"DISCARD" { self.queues.remove(&c); }
+                            v
+                        };
                         let mut out = vec![]; canon_reply(&nm, v).enc(&mut out); (newop, out)
                     }
                     Rd::Timeout => (newop, vec![b("TIMEOUT")]),
                     Rd::Closed => (newop, vec![b("CLOSED")]),
                     Rd::Bad => (newop, vec![b("BADREPLY")]),
                 }
+            }
+            b"SWEEP" | b"SWEEP_GATE" | b"SWEEP_RELEASE" => {
+                // sweeper schedule control through the VERIF hook command on a private control connection
+                let mut newop = vec![op[0].clone(), Tok::I(self.logical)];
+                newop.extend_from_slice(&op[op.len().min(2)..]);
+                if !self.conns.contains_key(&-1) { if let Some(cl) = Client::connect(self.srv.port) { self.conns.insert(-1, cl); } }
+                let pw = self.password.clone();
+                let cl = self.conns.get_mut(&-1).unwrap();
+                let mut ask = |cl: &mut Client, args: &[&[u8]]| -> i64 {
+                    let mut w = vec![]; V::cmd(args).wire(&mut w); cl.send(&w);
+                    match cl.read(2000) { Rd::Val(V::Int(n)) => n, Rd::Val(V::Simple(_)) => 0, _ => -1 }
+                };
+                if let Some(p) = &pw { if !self.ctl_authed { ask(cl, &[b"AUTH", p.as_bytes()]); self.ctl_authed = true; } }
+                let passes0 = ask(cl, &[b"VERIF", b"SWEEP", b"PASSES"]);
+                let wait = |cl: &mut Client, ask: &mut dyn FnMut(&mut Client, &[&[u8]]) -> i64, what: &[u8], target: i64| -> bool {
+                    let t0 = Instant::now();
+                    while t0.elapsed() < Duration::from_millis(2500) {
+                        if ask(cl, &[b"VERIF", b"SWEEP", what]) >= target { return true; }
+                        std::thread::sleep(Duration::from_millis(5));
+                    }
+                    false
+                };
+                // a pass must start at a known model instant: wait until the sweeper is parked at its
+                // wait point, move the logical clock to the next 300 ms grid point not before now, sleep
+                // until then, and only then let it run (it starts within a few ms)
+                let mut ok = true;
+                if &name[..] != b"SWEEP_RELEASE" {
+                    ok = wait(cl, &mut ask, b"WAITING", 1);
+                    let el = self.t0.elapsed().as_millis() as i128;
+                    let grid = ((el + 299) / 300) * 300;
+                    if grid > self.logical { self.logical = grid; }
+                    let target = Duration::from_millis(self.logical as u64);
+                    let now = self.t0.elapsed();
+                    if now < target { std::thread::sleep(target - now); }
+                    newop[1] = Tok::I(self.logical);
+                }
+                let ok2 = match &name[..] {
+                    b"SWEEP" => { ask(cl, &[b"VERIF", b"SWEEP", b"STEP"]); wait(cl, &mut ask, b"PASSES", passes0 + 1) }
+                    b"SWEEP_GATE" => { ask(cl, &[b"VERIF", b"SWEEP", b"GATE"]); ask(cl, &[b"VERIF", b"SWEEP", b"STEP"]); wait(cl, &mut ask, b"ATGATE", 1) }
+                    _ => { ask(cl, &[b"VERIF", b"SWEEP", b"RELEASE"]); wait(cl, &mut ask, b"PASSES", passes0 + 1) }
+                };
+                let ok = ok && ok2;
+                let el = self.t0.elapsed().as_millis() as i128;
+                if el - self.logical > 80 { self.drift_bad = true; }
+                (newop, if ok { vec![] } else { vec![b("SWEEPTIMEOUT")] })
+            }
+            b"RAW" => {
+                // [RAW c t chunk...]: write the chunks 25 ms apart, then collect everything the server
+                // sends until it has been quiet for 150 ms; output = [closed?; reply frames...]
+                let c = tok_int(&op[1]);
+                let mut newop = op.to_vec(); newop[2] = Tok::I(self.logical);
+                let cl = match self.conns.get_mut(&c) { Some(x) => x, None => return (newop, vec![b("CLOSED")]) };
+                for ch in &op[3..] { let _ = cl.send(tok_bytes(ch)); std::thread::sleep(Duration::from_millis(25)); }
+                let mut frames = vec![]; let mut closed = 0; let mut bad = false;
+                loop {
+                    match cl.read(150) {
+                        Rd::Val(v) => frames.push(v),
+                        Rd::Timeout => break,
+                        Rd::Closed => { closed = 1; break; }
+                        Rd::Bad => { bad = true; break; }
+                    }
+                }
+                let mut out = vec![i(closed)];
+                for f in frames { canon(f).enc(&mut out); }
+                if bad { out.push(b("GARBAGE")); }
+                (newop, out)
             }
             _ => (op.to_vec(), vec![b("BADOP")]),
         }
@@ -158,10 +270,21 @@ impl Runner {
 
 /// run a whole case on a fresh server
 pub fn run_case(c: &Case, o: &SrvOpts) -> Case {
-    let mut r = Runner::new(o);
+    // an initial [SERVER password] op configures the server of this case
+    let mut opts = SrvOpts { password: o.password.clone(), aof: o.aof, dir: o.dir.clone(), keep_dir: o.keep_dir };
+    let mut skip = 0;
     let mut out = Case { id: c.id.clone(), ops: vec![], outs: vec![] };
-    for op in &c.ops { let (o2, res) = r.op(op); out.ops.push(o2); out.outs.push(res); }
-    let drift = r.drift_bad;
+    if let Some(first) = c.ops.first() {
+        if matches!(first.first(), Some(Tok::B(n)) if n == b"SERVER") {
+            let pw = tok_bytes(&first[1]).to_vec();
+            if !pw.is_empty() { opts.password = Some(String::from_utf8_lossy(&pw).to_string()); }
+            out.ops.push(first.clone()); out.outs.push(vec![]);
+            skip = 1;
+        }
+    }
+    let mut r = Runner::new(&opts);
+    for op in &c.ops[skip..] { let (o2, res) = r.op(op); out.ops.push(o2); out.outs.push(res); }
+    let drift = r.drift_bad && c.ops.iter().any(|o| matches!(o.first(), Some(Tok::B(n)) if n == b"SLEEP"));
     let alive = r.finish();
     if !alive { out.ops.push(vec![b("ALIVE")]); out.outs.push(vec![i(0)]); }
     if drift { out.id = format!("{}-DISCARD", out.id); }
@@ -176,3 +299,31 @@ pub fn cmd_op(conn: i64, args: &[&[u8]]) -> Vec<Tok> {
 pub fn cmd_frame_op(conn: i64, req: &V) -> Vec<Tok> { let mut o = vec![b("CMD"), i(conn), i(0)]; req.enc(&mut o); o }
 pub fn conn_op(conn: i64) -> Vec<Tok> { vec![b("CONN"), i(conn)] }
 pub fn sleep_op(ms: i64) -> Vec<Tok> { vec![b("SLEEP"), i(ms)] }
+pub fn raw_op(conn: i64, chunks: &[Vec<u8>]) -> Vec<Tok> { let mut o = vec![b("RAW"), i(conn), i(0)]; for c in chunks { o.push(bv(c)); } o }
+pub fn sweep_op() -> Vec<Tok> { vec![b("SWEEP"), i(0)] }
+pub fn sweep_gate_op() -> Vec<Tok> { vec![b("SWEEP_GATE"), i(0)] }
+pub fn sweep_release_op() -> Vec<Tok> { vec![b("SWEEP_RELEASE"), i(0)] }
+pub fn close_op(conn: i64) -> Vec<Tok> { vec![b("CLOSE"), i(conn)] }
+pub fn server_op(password: &[u8]) -> Vec<Tok> { vec![b("SERVER"), bv(password)] }
+
+/// every command name the server dispatches, read from /repo's current source
+pub fn dispatch_names() -> Vec<String> {
+    let repo = std::env::var("VERIF_REPO").unwrap_or("/repo".to_string());
+    let src = std::fs::read_to_string(format!("{}/src/network/server.rs", repo)).unwrap_or_default();
+    let mut names: Vec<String> = vec![];
+    let bytes = src.as_bytes();
+    let mut p = 0;
+    while let Some(q) = src[p..].find('"') {
+        let st = p + q + 1;
+        if let Some(e) = src[st..].find('"') {
+            let w = &src[st..st + e];
+            let after = src[st + e + 1..].trim_start();
+            if w.len() >= 3 && w.chars().all(|c| c.is_ascii_uppercase()) && (after.starts_with("=>") || after.starts_with('|'))
+                && !names.contains(&w.to_string()) { names.push(w.to_string()); }
+            p = st + e + 1;
+        } else { break; }
+    }
+    let _ = bytes;
+    names.retain(|n| n != "VERIF");
+    names
+}
